@@ -76,6 +76,11 @@ def cluster(nh: int, nw: int) -> dict[str, list[str]]:
     return {f"h{i}": [f"h{i}.w{j}" for j in range(nw)] for i in range(nh)}
 
 
+def cluster_of(sizes: list[int]) -> dict[str, list[str]]:
+    """hosts with different numbers of workers"""
+    return {f"h{i}": [f"h{i}.w{j}" for j in range(n)] for i, n in enumerate(sizes)}
+
+
 def shapes() -> dict[str, tuple[dict, list]]:
     """Named job shapes: (outs, edges)."""
     one = ["0"]
@@ -182,6 +187,11 @@ def quick_instances() -> list[Instance]:
     for nh, nw in [(1, 1), (2, 1)]:
         outs, edges = S["collide"]
         I.append(Instance(f"collide_{nh}x{nw}_sink", outs, edges, cluster(nh, nw), [("u", "0"), ("g", "1")], trace_only=True))
+    # hosts of different size (2 + 1 workers, 1 + 3 workers)
+    for shape, sizes, ext in [("diamond", [2, 1], [("k", "0")]), ("fanout4", [1, 3], [("m1", "0"), ("m4", "0")]),
+                              ("fanvee", [2, 1], [("k", "0"), ("m2", "0")])]:
+        outs, edges = S[shape]
+        I.append(Instance(f"{shape}_{'+'.join(map(str, sizes))}_uneven", outs, edges, cluster_of(sizes), ext, trace_only=True))
     # mixed hosts: what Executor registers with one GPU and two workers (w0 has it, w1 has none), next to a GPU-less host
     for shape, nh, nw, gw, gt in [("gpufan", 1, 2, ["h0.w0"], ["g1", "g2", "g3"]), ("gpufan", 2, 2, ["h0.w0"], ["g1", "g2", "g3"]),
                                   ("gpufan", 2, 2, ["h0.w1", "h1.w0"], ["g1", "g2"]), ("gpusrc2", 1, 2, ["h0.w0"], ["g1", "g2"]),
